@@ -121,6 +121,9 @@ unsafe impl<L: Lockable> RawLock for RetryingLockCollection<L> {
 					if lock.raw_try_write() {
 						locked.set(locked.get() + 1);
 					} else {
+						// nothing counts as locked during the rollback, so that a
+						// panicking unlock can't cause a second unlock
+						locked.set(0);
 						// safety: we already locked all of these
 						attempt_to_recover_writes_from_panic(&locks[0..i]);
 						return false;
@@ -209,6 +212,9 @@ unsafe impl<L: Lockable> RawLock for RetryingLockCollection<L> {
 					if lock.raw_try_read() {
 						locked.set(locked.get() + 1);
 					} else {
+						// nothing counts as locked during the rollback, so that a
+						// panicking unlock can't cause a second unlock
+						locked.set(0);
 						// safety: we already locked all of these
 						attempt_to_recover_reads_from_panic(&locks[0..i]);
 						return false;
